@@ -73,3 +73,10 @@ impl Target {
         }
     }
 }
+
+#[cfg(feature = "verif-hooks")]
+pub mod verif_hooks_c17 {
+    //! Verification hooks (add-only): reach the private target modules.
+    pub use super::file::target::verif_hooks_c17 as file;
+    pub use super::mqtt::target::verif_hooks_c17 as mqtt;
+}
